@@ -730,6 +730,7 @@ func (g *smtpGen) domainPool() []string {
 	for _, l := range [][]string{g.env.pol.acc, g.env.pol.rej, g.env.pol.sto, g.env.pol.dis} {
 		for _, d := range l {
 			p = append(p, d, recase(g.r, d))
+			p = append(p, globInstances(d)...) // nothing unless the entry has '*' / '?' (profiles with wildLists): domains it would name as a pattern
 		}
 	}
 	for _, pat := range g.env.pol.ro {
@@ -988,6 +989,7 @@ type smtpProfile struct {
 	noHdrErrs bool
 	pipelined bool // half of the dialogues are sent in one write (pipelining client)
 	faults    bool // inject AddMessage failures for some destination mailboxes
+	wildLists bool // the accept / reject / store / discard lists may hold entries with '*' and '?' (literals there: C05)
 }
 
 func randHook(r *rand.Rand) hookAns {
@@ -1003,7 +1005,11 @@ func randHook(r *rand.Rand) hookAns {
 }
 
 func (p smtpProfile) randEnv(r *rand.Rand) *smtpEnv {
-	e := &smtpEnv{naming: p.namings[r.Intn(len(p.namings))], pol: randEnvCfg(r), maxRcpt: []int{1, 2, 3, 5, 200, 0}[r.Intn(6)], maxBytes: 100000, cap: 0,
+	pol := randEnvCfg
+	if p.wildLists {
+		pol = randEnvCfgW
+	}
+	e := &smtpEnv{naming: p.namings[r.Intn(len(p.namings))], pol: pol(r), maxRcpt: []int{1, 2, 3, 5, 200, 0}[r.Intn(6)], maxBytes: 100000, cap: 0,
 		hookMail: map[string]hookAns{}, hookRcpt: map[string]hookAns{}, hookStored: map[string]inboundRepl{}}
 	if r.Intn(100) < 65 {
 		e.pol.da = true
